@@ -1,5 +1,6 @@
 import PewDriver.Util
 import PewModel.FastParse
+import Std.Data.HashMap
 open Lean
 namespace PewDriver.C17
 open PewDriver Pew.FastParse
@@ -51,6 +52,50 @@ def jResult : Except Err Model → Json
   | .ok m => jObj [("ok", jModel m)]
   | .error e => jObj [("raises", jStr (errName e))]
 
+/-! the conversions of `Bin`, realised from tables the harness sends: attribute text ↦ the value
+`int()` / `float()` give for it, (group id, offset text, length text) ↦ the numbers stored there -/
+
+def lookupD {β} (tbl : List (String × β)) (k : String) (dflt : β) : β :=
+  match tbl.lookup k with
+  | some v => v
+  | none => dflt
+
+/-- `offsets[id]`, `lengths[id]`: the dictionary keeps the last array with that reference -/
+def arrayOf (s : SpecInfo) (id : String) : Option (String × String) :=
+  (s.arrays.reverse.find? (fun a => a.1 == id)).map (fun a => a.2)
+
+def mkBin (ints : List (String × Nat)) (floats : List (String × Rat))
+    (reads : Std.HashMap (String × String × String) (List Rat)) : Bin :=
+  { int := fun s => lookupD ints s 0, float := fun s => lookupD floats s 0,
+    read := fun g s => match arrayOf s g.id with
+      | some (o, l) => reads.getD (g.id, o, l) []
+      | none => [] }
+
+/-- every text the extraction converts is in the tables, every spectrum has both arrays with strictly
+increasing non-empty m/z axes of the intensities' length, 1-based positions inside the image:
+the class on which `Pew.Imzml`'s placement and window sums are the NumPy ones -/
+def imagesHyp (B : Bin) (ints : List (String × Nat)) (floats : List (String × Rat))
+    (reads : Std.HashMap (String × String × String) (List Rat)) (m : Model) : Bool :=
+  let size := imageSizeOf B m
+  (match m.scan.size with
+    | some (x, y) => (ints.lookup x).isSome && (ints.lookup y).isSome
+    | none => true) &&
+  m.spectra.all (fun s =>
+    (ints.lookup s.x).isSome && (ints.lookup s.y).isSome &&
+    (match s.tic with | some t => (floats.lookup t).isSome | none => true) &&
+    (match arrayOf s m.mz.id, arrayOf s m.inten.id with
+      | some (o1, l1), some (o2, l2) => reads.contains (m.mz.id, o1, l1) && reads.contains (m.inten.id, o2, l2)
+      | _, _ => false) &&
+    (let t := toSpectrum B m s
+     Pew.Imzml.incrB t.mz && t.mz.length == t.it.length && !t.mz.isEmpty &&
+     decide (1 ≤ t.x) && decide (1 ≤ t.y) && decide (t.x ≤ size.1) && decide (t.y ≤ size.2)))
+
+def jImages (B : Bin) (m : Model) (masses : List Rat) (w : Pew.Imzml.Width) : Json :=
+  let size := imageSizeOf B m
+  jObj [("size", jList jNat [size.1, size.2]),
+        ("tic", jList (jList (jOpt jRat)) (ticImageOf B m)),
+        ("mass", jList (jList (jOpt (jList jRat))) (massImageOf B m masses w))]
+
 def handle (op : String) (req : Json) : R Json := do
   match op with
   | "c17.parse" =>
@@ -73,10 +118,44 @@ def handle (op : String) (req : Json) : R Json := do
         | some p => fun q => q != p
         | none => fun _ => true
     let s := run cb ls
+    -- specification of the callback positions: the formula over the line lengths; for an aborting
+    -- callback the first `abort + 1` of them
+    -- (`callPositionsFast` = `callPositions`, `callLinesFast` = the list of `callLine k`: theorems `callPositionsFast_eq`,
+    -- `callLinesFast_eq`)
+    let positions := callPositionsFast cls d lens
+    let specCalls := match abortAt with
+      | none => positions
+      | some k => positions.take (k + 1)
+    let xd := xmlDoc d
+    let xml := xmlView xd
+    let fastFree := fastParse (fun _ => true) ls
+    -- the images of both models, when the harness sent the conversion tables
+    let bin ← fld req "bin"
+    let images ← match bin with
+      | .null => pure Json.null
+      | b => do
+        let ints ← getList (fun j => do pure ((← getStr j "text"), (← getNat j "value"))) b "ints"
+        let floats ← getList (fun j => do pure ((← getStr j "text"), (← getRat j "value"))) b "floats"
+        let reads ← getList (fun j => do
+          pure (((← getStr j "id"), (← getStr j "offset"), (← getStr j "length")), (← getList asRat j "data"))) b "reads"
+        let masses ← getList asRat b "masses"
+        let width ← getRat b "width_mz"
+        let tbl : Std.HashMap (String × String × String) (List Rat) := Std.HashMap.ofList reads
+        let B := mkBin ints floats tbl
+        let one (m : Option Model) : Json := match m with
+          | some m => if imagesHyp B ints floats tbl m then jImages B m masses (.mz width) else Json.null
+          | none => Json.null
+        pure (jObj [("xml", one xml), ("fast", one fastFree.toOption)])
     pure (jObj [("fast", jResult (fastParse cb ls)), ("calls", jList jNat s.calls),
-                ("fast_free", jResult (fastParse (fun _ => true) ls)), ("calls_free", jList jNat free.calls),
-                ("xml", jOpt jModel (xmlView d)),
-                ("layout", jBool (decide (Layout cls d))), ("nlines", jNat lines.length)])
+                ("fast_free", jResult fastFree), ("calls_free", jList jNat free.calls),
+                ("xml", jOpt jModel xml),
+                ("call_positions", jList jNat positions), ("spec_calls", jList jNat specCalls),
+                ("call_lines", jList jNat (callLinesFast cls d)),
+                ("layout", jBool (decide (Layout cls d))),
+                ("text_ok", jBool (decide (TextOk d))),
+                ("layout_core_decoded", jBool (decide (LayoutCore cls xd))),
+                ("images", images),
+                ("nlines", jNat lines.length)])
   | _ => throw s!"unknown op {op}"
 
 end PewDriver.C17
